@@ -3,7 +3,7 @@
 cd "$(dirname "$0")/.."
 rc=0
 for p in $(python3 -c "import json; print(' '.join(c['property_id'] for c in json.load(open('MANIFEST.json'))['checks']))"); do
-  cmd=$(python3 -c "import json; print([c for c in json.load(open('MANIFEST.json'))['checks'] if c['property_id']=='$p'][0]['thorough']['cmd'])")
+  cmd=$(python3 -c "import json; print([c for c in json.load(open('MANIFEST.json'))['checks'] if c['property_id']=='$p'][0]['thorough_cmd'])")
   t0=$(date +%s)
   out=$(bash -c "$cmd" 2>&1); e=$?
   echo "$p exit=$e $(( $(date +%s) - t0 ))s :: $(echo "$out" | grep -c '^OK') ok, $(echo "$out" | grep -c '^FAIL') fail, $(echo "$out" | grep -c '^SKIP') skip"
